@@ -710,6 +710,10 @@ func (tdsChan *Channel) tryParsePackage() bool {
 
 	tdsChan.packageCh <- pkg
 	tdsChan.rxDoneFinal, _ = isDoneFinal(pkg)
-	tdsChan.lastPkgRx = pkg
+	// Messages can be sent between a format and its data packages and
+	// must not replace the format as the last received package.
+	if _, ok := pkg.(*EEDPackage); !ok {
+		tdsChan.lastPkgRx = pkg
+	}
 	return true
 }
